@@ -34,8 +34,9 @@ LEVEL_TEXT = ('The text layer of the MDL formats (fixed-width formatting, int()/
               'docstrings, backed by a behavioural oracle per reader x option x record kind. Atom/bond construction (create_molecule), wedge geometry and the '
               'lxml-based MRV path are not modelled: they are validated by a write->read oracle on the real code. That is '
               'translation validation with partial proofs, not a proof about the Python text.')
-LEVEL_NOTE = ('Lean kernel; gen_mdl translator (literal tables via AST); hand transcription of the text layer validated by '
-              'correspondence; ASCII text domain; coordinates restricted to exact multiples of 1/10000; create_molecule, '
+LEVEL_NOTE = ('Lean kernel; gen_mdl translator (literal tables via AST); gen_mdl_options translator (AST walk: reader options, '
+              'helper call sites, forwarded keywords / guards); Spec/CtfileData.lean and Spec/MdlOptions.lean transcribe the CTfile '
+              'specification and the readers\' docstrings; hand transcription of the text layer validated by correspondence; ASCII text domain; coordinates restricted to exact multiples of 1/10000; create_molecule, '
               'stereo post-processing, lxml and grep are outside the model.')
 TECHNIQUE = ('Lean 4 round-trip theorems over an executable model of the MDL text layer + regenerated tables (literal tables, '
              'option-forwarding table) + differential testing')
